@@ -201,6 +201,19 @@ REG['C17'] = dict(
          'translator (validated by the exact crash-enumeration correspondence); timestamps ignored when comparing contents.',
     technique='Lean 4 proof (prefix invariant over crash histories) over a generated configuration + crash-enumeration correspondence',
     ref='§5-C17')
+REG['C18'] = dict(
+    text=PARTIAL + 'Lean 4 theorems for the rotated-analysis clause: for every H, W >= 1 (non-square included), every rotation and '
+         'every pixel of the rotated image, rotate_layout (called with the ROTATED image shape, as detect does) maps the pixel\'s '
+         'coordinates to within one pixel per axis of the original pixel (exactly +1 on the flipped axis: the bound is tight); np.rot90 '
+         'is modelled as an index bijection inside the image; the map is an isometry on displacements (baselines, outlines and region '
+         'polygons keep their shape); rot=0 is the identity. Exact correspondence with the real np.rot90 (index-stamped images) and the '
+         'real rotate_layout for all rotations on non-square shapes. NOT decided by proof: the ridge-decoding clause (scipy.ndimage '
+         'smoothing, non-maxima suppression, labelling, percentiles) - judged by an oracle on LayoutEngine.parse over synthetic maps '
+         '(one line per ridge, end points / vertical position within a few map pixels x ds, heights = map x ds).',
+    note='Trusted: NumPy rot90 semantics (exercised exhaustively on small shapes); scipy.ndimage; the stub engine object bypasses the '
+         'network (maps are synthetic).',
+    technique='Lean 4 proof (index arithmetic, omega) + differential correspondence + ridge oracle (partial)',
+    ref='§5-C18')
 REG['C19'] = dict(
     text='Lean 4 theorems over the merge fold of merge_ocr_results.py: if some engine has positive mean confidence the merged '
          'line takes transcription, logits, character table AND recorded confidence from the same engine, the first one attaining '
